@@ -140,7 +140,7 @@ pub fn run_case<V: VringT<GM> + Clone + Send + Sync + 'static>(case: &Value, tra
         let q = step["q"].as_u64().unwrap_or(0) as usize;
         rig.log.take();
         let mut out = json!({});
-        let mut status = "none".to_string();
+        let status: String;
         match op {
             "reconnect" => {
                 status = if rig.reconnect() { "ok".into() } else { "failed".into() };
@@ -438,6 +438,101 @@ pub fn run_case<V: VringT<GM> + Clone + Send + Sync + 'static>(case: &Value, tra
                     listeners.push(e);
                 }
             }
+            "dev" => {
+                // X03: an optional device-level request, all the way from the wire to the backend callback and back
+                let kind = step["k"].as_str().unwrap_or("");
+                *rig.tb.dev.lock().unwrap() = step["h"].as_str().unwrap_or("ok").to_string();
+                let mut sent = json!({});
+                let mut keep: Vec<File> = Vec::new();
+                let (code, body, fds, has_reply): (u32, Vec<u8>, Vec<i32>, bool) = match kind {
+                    "get_config" | "set_config" => {
+                        let lim = if rng.bool() { 16 } else { 600 };
+                        let size = 1 + rng.below(lim) as u32;
+                        let off = rng.below((0x1000 - size as u64) + 1) as u32;
+                        let mut b = off.to_le_bytes().to_vec();
+                        b.extend_from_slice(&size.to_le_bytes());
+                        b.extend_from_slice(&0u32.to_le_bytes());
+                        let payload: Vec<u8> = (0..size).map(|_| if kind == "set_config" { rng.next() as u8 } else { 0 }).collect();
+                        b.extend_from_slice(&payload);
+                        sent = json!({"off": off, "size": size, "data": bytes_json(&payload)});
+                        (if kind == "get_config" { 24 } else { 25 }, b, vec![], kind == "get_config")
+                    }
+                    "get_shared_object" => {
+                        let mut u: Vec<u8> = (0..16).map(|_| rng.next() as u8).collect();
+                        u[3] = 0x5a;
+                        sent = json!({"uuid": bytes_json(&u)});
+                        (41, u, vec![], true)
+                    }
+                    "gpu_set_socket" => (33, vec![], vec![], false),
+                    "set_device_state_fd" => {
+                        let (dir, phase) = (rng.below(2) as u32, 0u32);
+                        let f = memfd("statefd", 4096);
+                        sent = json!({"dir": dir, "phase": phase, "file": fd_id(f.as_raw_fd())});
+                        let fd = f.as_raw_fd();
+                        keep.push(f);
+                        let mut b = dir.to_le_bytes().to_vec();
+                        b.extend_from_slice(&phase.to_le_bytes());
+                        (42, b, vec![fd], true)
+                    }
+                    "check_device_state" => (43, vec![], vec![], true),
+                    "get_shmem_config" => (44, vec![], vec![], true),
+                    "get_queue_num" => (17, vec![], vec![], true),
+                    "get_max_mem_slots" => (36, vec![], vec![], true),
+                    "get_inflight_fd" | "set_inflight_fd" => {
+                        let mut b = 0x1000u64.to_le_bytes().to_vec();
+                        b.extend_from_slice(&0u64.to_le_bytes());
+                        b.extend_from_slice(&2u16.to_le_bytes());
+                        b.extend_from_slice(&64u16.to_le_bytes());
+                        b.extend_from_slice(&0u32.to_le_bytes());
+                        if kind == "set_inflight_fd" {
+                            let f = memfd("inflight", 4096);
+                            let fd = f.as_raw_fd();
+                            keep.push(f);
+                            (32, b, vec![fd], false)
+                        } else {
+                            (31, b, vec![], true)
+                        }
+                    }
+                    other => panic!("unknown device letter {other}"),
+                };
+                let mut gpu_peer = None;
+                let mut fds = fds;
+                if kind == "gpu_set_socket" {
+                    let (a, b) = std::os::unix::net::UnixStream::pair().unwrap();
+                    fds.push(a.as_raw_fd());
+                    gpu_peer = Some((a, b));
+                }
+                let ngpu = rig.tb.gpus.lock().unwrap().len();
+                let r = rig.peer.request(code, &body, &fds, has_reply);
+                status = r.status.clone();
+                let rfd_ids: Vec<String> = r.fds.iter().map(|f| fd_id(*f)).collect();
+                let mut o = json!({"sent": sent, "reply": bytes_json(&r.body), "reply_len": r.body.len(), "reply_fds": rfd_ids, "gpu_linked": "na"});
+                if let Some((a, b)) = gpu_peer {
+                    drop(a);
+                    // the proxy the device was handed must talk to the socket the frontend supplied
+                    let g = { let v = rig.tb.gpus.lock().unwrap(); if v.len() > ngpu { v.last().cloned() } else { None } };
+                    o["gpu_linked"] = json!("nogpu");
+                    if let Some(g) = g {
+                        let pos = vhost::vhost_user::gpu_message::VhostUserGpuCursorPos { scanout_id: 7, x: 0x1234, y: 0x5678 };
+                        let sent_ok = g.cursor_pos(&pos).is_ok();
+                        b.set_read_timeout(Some(std::time::Duration::from_millis(1000))).unwrap();
+                        let mut buf = [0u8; 24];
+                        let mut got = 0;
+                        while sent_ok && got < 24 {
+                            match raw_recv(&b, &mut buf[got..], 0) {
+                                Ok((n, _)) if n > 0 => got += n,
+                                _ => break,
+                            }
+                        }
+                        o["gpu_linked"] = json!(if got == 24 && le32(&buf, 0) == 4 && le32(&buf, 12) == 7 && le32(&buf, 16) == 0x1234 && le32(&buf, 20) == 0x5678 { "yes" } else { "no" });
+                    }
+                }
+                for f in r.fds {
+                    close_fd(f);
+                }
+                drop(keep);
+                out = o;
+            }
             "raw" => {
                 let code = step["c"].as_u64().unwrap() as u32;
                 let body = unhex(step["body"].as_str().unwrap_or(""));
@@ -463,8 +558,9 @@ pub fn run_case<V: VringT<GM> + Clone + Send + Sync + 'static>(case: &Value, tra
         let bid = rig.barrier_id as u16;
         let dispatches: Vec<Value> = evs.iter().filter(|e| e["ev"] == "dispatch" && e["event"] != bid).cloned().collect();
         let cbs: Vec<Value> = evs.iter().filter(|e| e["ev"] == "cb").cloned().collect();
+        let dcbs: Vec<Value> = evs.iter().filter(|e| e["ev"] == "dcb").cloned().collect();
         let mut e = json!({"ev": "step", "op": op, "q": q, "letter": step, "status": status, "out": out,
-            "dispatches": dispatches, "ndispatch": dispatches.len(), "cbs": cbs, "workers_ok": workers_ok, "panics": take_panics(),
+            "dispatches": dispatches, "ndispatch": dispatches.len(), "cbs": cbs, "dcbs": dcbs, "workers_ok": workers_ok, "panics": take_panics(),
             "updates": *rig.tb.updates.lock().unwrap()});
         // ring snapshot through the backend's own view: sampled in the barrier dispatch of each thread
         let mut last_per_thread: std::collections::BTreeMap<u64, &Value> = std::collections::BTreeMap::new();
